@@ -20,7 +20,7 @@ Print Assumptions C15_parse_link.
 Theorem C15_exactly_once :
   forall (L : list item) (cap : nat) (ds : nat -> decision)
          (render : nat -> url -> url -> str) (trailer : nat -> str)
-         (resolve : url -> str -> option url) (c : cfg) (cu : cursor) (npath : nat -> str -> str)
+         (resolve : url -> str -> option url) (c : cfg) (cu : cursor) (npath : nat -> str -> str) (vis : item -> bool)
          (path last0 : str) (fuel : nat),
     cursor_ok cu ->
     c_kind c <> KReferrers ->
@@ -31,10 +31,10 @@ Theorem C15_exactly_once :
        resolve base (render i base (link_target ds cu npath i base x)) = Some (link_target ds cu npath i base x)) ->
     (forall i, (Z.of_N (d_doc_len (ds i)) <= eff_limit (c_limit c))%Z) ->
     (length (after last0 L) < fuel)%nat ->
-    let t := loop (reg_serve (c_kind c) cu npath L cap ds render trailer) resolve (fun _ => false) c
+    let t := loop (reg_serve (c_kind c) cu npath vis L cap ds render trailer) resolve (fun _ => false) c
                   fuel 0 0 (mkUrl path []) last0 in
     t_out t = Done /\
-    concat (t_pages t) = after last0 L /\
+    concat (t_pages t) = filter vis (after last0 L) /\
     NoDup (map fst (concat (t_pages t))) /\
     (length (t_reqs t) <= S (length (after last0 L)))%nat.
 Proof. exact listing_exactly_once. Qed.
@@ -46,7 +46,7 @@ Print Assumptions C15_exactly_once.
 Theorem C15_filter :
   forall (L : list item) (cap : nat) (ds : nat -> decision)
          (render : nat -> url -> url -> str) (trailer : nat -> str)
-         (resolve : url -> str -> option url) (c : cfg) (cu : cursor) (npath : nat -> str -> str)
+         (resolve : url -> str -> option url) (c : cfg) (cu : cursor) (npath : nat -> str -> str) (vis : item -> bool)
          (path : str) (fuel : nat),
     cursor_ok cu ->
     c_kind c = KReferrers ->
@@ -58,10 +58,10 @@ Theorem C15_filter :
     (forall i, (Z.of_N (d_doc_len (ds i)) <= eff_limit (c_limit c))%Z) ->
     (forall i, qget k_at (d_extra (ds i)) = None) ->
     (length L < fuel)%nat ->
-    let t := loop (reg_serve KReferrers cu npath L cap ds render trailer) resolve (fun _ => false) c
+    let t := loop (reg_serve KReferrers cu npath vis L cap ds render trailer) resolve (fun _ => false) c
                   fuel 0 0 (mkUrl path (referrers_query (c_at c))) [] in
     t_out t = Done /\
-    concat (t_pages t) = filter_referrers L (c_at c) /\
+    concat (t_pages t) = filter_referrers (filter vis L) (c_at c) /\
     (length (t_reqs t) <= S (length L))%nat.
 Proof. exact referrers_exactly_once. Qed.
 Print Assumptions C15_filter.
@@ -69,7 +69,7 @@ Print Assumptions C15_filter.
 (* ---------- the hypotheses are satisfiable: a concrete registry and a toy net/url ---------- *)
 
 Example C15_example_tags :
-  let t := loop (reg_serve KTags CLast (fun _ p => p) ex_L 2 ex_ds ex_render (fun _ => b "; rel=""next""")) ex_resolve
+  let t := loop (reg_serve KTags CLast (fun _ p => p) (fun _ => true) ex_L 2 ex_ds ex_render (fun _ => b "; rel=""next""")) ex_resolve
                 (fun _ => false) (ex_cfg KTags) 5 0 0 (mkUrl (b "/v2/r/tags/list") []) (b "a") in
   t_out t = Done /\ map fst (concat (t_pages t)) = [b "b"; b "c"; b "d"] /\ length (t_reqs t) = 2%nat.
 Proof. vm_compute. repeat split. Qed.
@@ -84,12 +84,13 @@ Example C15_example_hypotheses :
   (forall i, qget k_at (d_extra (ex_ds i)) = None).
 Proof. exact example_hypotheses. Qed.
 
-(* the same registry paging with an opaque cursor "token=p;<name>" on another path *)
+(* the same registry paging one item per page with an opaque cursor "token=p;<name>" under
+   another path, not showing entry "c": its page is empty, the listing goes on *)
 Example C15_example_token_cursor :
-  let t := loop (reg_serve KTags ex_cu ex_npath ex_L 2 ex_ds ex_render_tok (fun _ => [])) ex_resolve_tok
+  let t := loop (reg_serve KTags ex_cu ex_npath ex_vis ex_L 1 ex_ds ex_render_tok (fun _ => [])) ex_resolve_tok
                 (fun _ => false) (ex_cfg KTags) 5 0 0 (mkUrl (b "/v2/r/tags/list") []) (b "a") in
-  t_out t = Done /\ map fst (concat (t_pages t)) = [b "b"; b "c"; b "d"] /\
-  map u_path (t_reqs t) = [b "/v2/r/tags/list"; b "/v2/r/tags/list/~p"].
+  t_out t = Done /\ map (map fst) (t_pages t) = [[b "b"]; []; [b "d"]] /\
+  map u_path (t_reqs t) = [b "/v2/r/tags/list"; b "/v2/r/tags/list/~p"; b "/v2/r/tags/list/~p"].
 Proof. vm_compute. repeat split. Qed.
 
 Example C15_example_token_hypotheses :
@@ -101,7 +102,7 @@ Example C15_example_token_hypotheses :
 Proof. exact example_token_hypotheses. Qed.
 
 Example C15_example_referrers :
-  let t := loop (reg_serve KReferrers CLast (fun _ p => p) ex_L 2 ex_ds ex_render (fun _ => [])) ex_resolve
+  let t := loop (reg_serve KReferrers CLast (fun _ p => p) (fun _ => true) ex_L 2 ex_ds ex_render (fun _ => [])) ex_resolve
                 (fun _ => false) (ex_cfg KReferrers) 6 0 0
                 (mkUrl (b "/v2/r/referrers/d") (referrers_query (b "t1"))) [] in
   t_out t = Done /\ map fst (concat (t_pages t)) = [b "a"; b "c"; b "d"].
@@ -133,7 +134,7 @@ Print Assumptions C15_stops_on_error.
 Theorem C15_exactly_once_any_callback :
   forall (L : list item) (cap : nat) (ds : nat -> decision)
          (render : nat -> url -> url -> str) (trailer : nat -> str)
-         (resolve : url -> str -> option url) (c : cfg) (cu : cursor) (npath : nat -> str -> str)
+         (resolve : url -> str -> option url) (c : cfg) (cu : cursor) (npath : nat -> str -> str) (vis : item -> bool)
          (cb_fail : nat -> bool) (path last0 : str) (fuel : nat),
     cursor_ok cu ->
     c_kind c <> KReferrers ->
@@ -144,10 +145,10 @@ Theorem C15_exactly_once_any_callback :
        resolve base (render i base (link_target ds cu npath i base x)) = Some (link_target ds cu npath i base x)) ->
     (forall i, (Z.of_N (d_doc_len (ds i)) <= eff_limit (c_limit c))%Z) ->
     (length (after last0 L) < fuel)%nat ->
-    let t := loop (reg_serve (c_kind c) cu npath L cap ds render trailer) resolve cb_fail c
+    let t := loop (reg_serve (c_kind c) cu npath vis L cap ds render trailer) resolve cb_fail c
                   fuel 0 0 (mkUrl path []) last0 in
-    (t_out t = Done /\ concat (t_pages t) = after last0 L) \/
-    (t_out t = ErrCallback /\ exists rest', after last0 L = concat (t_pages t) ++ rest').
+    (t_out t = Done /\ concat (t_pages t) = filter vis (after last0 L)) \/
+    (t_out t = ErrCallback /\ exists rest', filter vis (after last0 L) = concat (t_pages t) ++ rest').
 Proof. exact listing_prefix_any_callback. Qed.
 Print Assumptions C15_exactly_once_any_callback.
 
@@ -203,7 +204,7 @@ Print Assumptions C15_limit.
 Theorem C15_limit_listing :
   forall (L : list item) (cap : nat) (ds : nat -> decision)
          (render : nat -> url -> url -> str) (trailer : nat -> str)
-         (resolve : url -> str -> option url) (c : cfg) (cu : cursor) (npath : nat -> str -> str)
+         (resolve : url -> str -> option url) (c : cfg) (cu : cursor) (npath : nat -> str -> str) (vis : item -> bool)
          (path last0 : str) (fuel : nat),
     cursor_ok cu ->
     NoDup (map fst L) -> (forall it, In it L -> fst it <> []) ->
@@ -213,13 +214,13 @@ Theorem C15_limit_listing :
        resolve base (render i base (link_target ds cu npath i base x)) = Some (link_target ds cu npath i base x)) ->
     (c_kind c = KReferrers -> forall i, qget k_at (d_extra (ds i)) = None) ->
     (length (start_rest c last0 L) < fuel)%nat ->
-    let t := loop (reg_serve (c_kind c) cu npath L cap ds render trailer) resolve (fun _ => false) c
+    let t := loop (reg_serve (c_kind c) cu npath vis L cap ds render trailer) resolve (fun _ => false) c
                   fuel 0 0 (mkUrl path (start_query c)) last0 in
     let fit := fun i => (Z.of_N (d_doc_len (ds i)) <= eff_limit (c_limit c))%Z in
-    (t_out t = Done /\ concat (t_pages t) = view c (start_rest c last0 L) /\
+    (t_out t = Done /\ concat (t_pages t) = view c vis (start_rest c last0 L) /\
      forall j, (j < length (t_reqs t))%nat -> fit j) \/
     (t_out t = ErrDecode /\
-     exists n j, concat (t_pages t) = view c (firstn n (start_rest c last0 L)) /\
+     exists n j, concat (t_pages t) = view c vis (firstn n (start_rest c last0 L)) /\
                  length (t_reqs t) = S j /\ ~ fit j /\ forall j', (j' < j)%nat -> fit j').
 Proof. exact listing_limit. Qed.
 Print Assumptions C15_limit_listing.
@@ -311,7 +312,7 @@ Print Assumptions C15_referrers_callback_error.
 Theorem C15_referrers_unknown_with_api :
   forall (L : list item) (cap : nat) (ds : nat -> decision)
          (render : nat -> url -> url -> str) (trailer : nat -> str)
-         (resolve : url -> str -> option url) (c : cfg) (cu : cursor) (npath : nat -> str -> str)
+         (resolve : url -> str -> option url) (c : cfg) (cu : cursor) (npath : nat -> str -> str) (vis : item -> bool)
          (path : str) (fuel : nat) cbu ts,
     cursor_ok cu ->
     c_kind c = KReferrers ->
@@ -323,10 +324,10 @@ Theorem C15_referrers_unknown_with_api :
     (forall i, (Z.of_N (d_doc_len (ds i)) <= eff_limit (c_limit c))%Z) ->
     (forall i, qget k_at (d_extra (ds i)) = None) ->
     (length L < fuel)%nat ->
-    let api := loop (reg_serve KReferrers cu npath L cap ds render trailer) resolve (fun _ => false) c
+    let api := loop (reg_serve KReferrers cu npath vis L cap ds render trailer) resolve (fun _ => false) c
                     fuel 0 0 (mkUrl path (referrers_query (c_at c))) [] in
     let w := referrers_wrap RUnknown cbu api ts in
-    w_out w = Done /\ concat (w_pages w) = filter_referrers L (c_at c) /\
+    w_out w = Done /\ concat (w_pages w) = filter_referrers (filter vis L) (c_at c) /\
     w_state w = RSupported /\ w_fell_back w = false.
 Proof. exact referrers_unknown_with_api. Qed.
 Print Assumptions C15_referrers_unknown_with_api.
@@ -350,7 +351,7 @@ Print Assumptions C15_referrers_unknown_without_api.
    class was swallowed, the tag schema run, a referrer delivered twice, success returned *)
 Theorem C15_referrers_fallback_refuted :
   exists (cb_fail : nat -> bool),
-    let api := loop (reg_serve KReferrers CLast (fun _ p => p) wit_L 5 wit_ds wit_render (fun _ => [])) wit_resolve
+    let api := loop (reg_serve KReferrers CLast (fun _ p => p) (fun _ => true) wit_L 5 wit_ds wit_render (fun _ => [])) wit_resolve
                     cb_fail wit_cfg 9 0 0 wit_u [] in
     let w := referrers_wrap_prefix RUnknown true api (wit_ts cb_fail) in
     t_out api = ErrCallback /\ w_out w = Done /\ w_state w = RUnsupported /\
@@ -455,7 +456,7 @@ Example C15_example_oci_tags :
 Proof. reflexivity. Qed.
 
 Example C15_example_stops :
-  let t := loop (reg_serve KTags CLast (fun _ p => p) ex_L 1 ex_ds ex_render (fun _ => [])) ex_resolve
+  let t := loop (reg_serve KTags CLast (fun _ p => p) (fun _ => true) ex_L 1 ex_ds ex_render (fun _ => [])) ex_resolve
                 (fun k => (k =? 1)%nat) (ex_cfg KTags) 9 0 0 (mkUrl (b "/v2/r/tags/list") []) [] in
   t_out t = ErrCallback /\ map (map fst) (t_pages t) = [[b "a"]; [b "b"]] /\ length (t_reqs t) = 2%nat.
 Proof. vm_compute. repeat split. Qed.
@@ -463,7 +464,7 @@ Proof. vm_compute. repeat split. Qed.
 (* a document over the limit on the second page: one whole page delivered, then ErrDecode *)
 Example C15_example_limit_listing :
   let ds := fun i => mkDec 1 [] false [] [] (if (i =? 1)%nat then 101 else 100) 0 in
-  let t := loop (reg_serve KTags CLast (fun _ p => p) ex_L 1 ds ex_render (fun _ => [])) ex_resolve
+  let t := loop (reg_serve KTags CLast (fun _ p => p) (fun _ => true) ex_L 1 ds ex_render (fun _ => [])) ex_resolve
                 (fun _ => false) (ex_cfg KTags) 9 0 0 (mkUrl (b "/v2/r/tags/list") []) [] in
   t_out t = ErrDecode /\ map (map fst) (t_pages t) = [[b "a"]] /\ length (t_reqs t) = 2%nat.
 Proof. vm_compute. repeat split. Qed.
